@@ -249,12 +249,43 @@ pub fn c20(_p: &Prog, cfg: &Cfg, rep: &mut Report) {
         2 => svmodel::json::string_strategy().prop_map(|s| json!(s)),
         1 => "cosmwasm1[a-z0-9]{38}".prop_map(|s| json!(s)),
     ]
-    .boxed();
+    ;
+    // second component: an order of parameterisations under which the handles are put into one
+    // schema (what a state / message struct with several Remote fields does)
+    let strat = (strat, proptest::collection::vec(0usize..5, 1..6)).prop_map(|(a, seq)| json!({"addr": a, "seq": seq})).boxed();
     let mut c2 = cfg.clone();
     c2.cases = cfg.cases.saturating_mul(60);
     run_cases(&c2, "runtime", "remote", strat, rep, |v: &Value, tally| {
-        let s = v.as_str().unwrap();
+        let s = v["addr"].as_str().unwrap();
+        let seq: Vec<usize> = v["seq"].as_array().unwrap().iter().map(|x| x.as_u64().unwrap() as usize).collect();
         let addr = Addr::unchecked(s);
+        {
+            // all parameterisations share ONE schema definition called `Remote`
+            let mut g = schemars::gen::SchemaGenerator::default();
+            let mut refs = vec![];
+            for i in &seq {
+                let sub = match i {
+                    0 => g.subschema_for::<Remote<'static, SomeContract>>(),
+                    1 => g.subschema_for::<Remote<'static, ()>>(),
+                    2 => g.subschema_for::<Remote<'static, str>>(),
+                    3 => g.subschema_for::<Remote<'static, dyn SomeIface<Error = StdError, Param = u32>>>(),
+                    _ => g.subschema_for::<Remote<'static, dyn SomeIface<Error = (), Param = String>>>(),
+                };
+                refs.push(serde_json::to_value(&sub).unwrap());
+            }
+            let defs: Vec<String> = g.definitions().keys().filter(|k| k.starts_with("Remote")).cloned().collect();
+            let mut distinct = seq.clone();
+            distinct.sort();
+            distinct.dedup();
+            tally.class(&format!("schema-composition:{}-parameterisations", distinct.len()));
+            if defs != vec!["Remote".to_string()] || refs.iter().any(|r| *r != json!({"$ref": "#/definitions/Remote"})) {
+                return Err(viol(
+                    "remote:schema-name-depends-on-parameter",
+                    "handles of different parameterisations used in one schema do not share the single definition `Remote`",
+                    json!({"order": seq, "definitions": defs, "references": refs}),
+                ));
+            }
+        }
         let escaping = serde_json::to_string(s).unwrap().len() != s.len() + 2;
         tally.class(if escaping { "address:needs-escaping" } else { "address:plain" });
         tally.nontrivial(&s);
